@@ -864,6 +864,9 @@ class Connection(object):
         elif not conn.connected_event.is_set():
             conn.close()
             raise OperationTimedOut("Timed out creating connection (%s seconds)" % timeout)
+        elif conn.is_closed:
+            # closed (e.g. by the peer) during the handshake without an error having been recorded
+            raise ConnectionShutdown("Connection to %s was closed" % (endpoint,))
         else:
             return conn
 
